@@ -131,6 +131,20 @@ CLAIMS["C12"] = {
     "design_ref": "DESIGN.md section 8.10",
 }
 
+CLAIMS["C14"] = {
+    "technique": "bounded Kani harnesses on get_locale_from_path extracted verbatim (trait Locale reduced to get_all / as_str)",
+    "text": "Bounded, first sentence of the property only: for every path of up to 5 (quick) / 7 (thorough) characters "
+            "after the base path, over the characters of the locale names, `/` and one other letter, with locales en, "
+            "en-US, fr listed in either order and base path \"\" or /a, get_locale_from_path returns the locale whose "
+            "name is the whole first path segment after the base path, and none when that segment is not a locale name "
+            "(a name that is a prefix of another name or of an ordinary word is not matched).",
+    "note": "Bounded stand-in, not counted as proved. Not covered (no contract within reach: leptos_router types, signals, "
+            "labelled loops over &str splits): the rewriting of a URL on a locale switch (get_new_path, PathBuilder, "
+            "localize_path, match_path_segments / construct_path_segments), route generation, a base path that is not "
+            "followed by a segment boundary.",
+    "design_ref": "DESIGN.md section 8.12",
+}
+
 CLAIMS["C19"] = {
     "technique": "contract-based deductive verification (Verus) of extracted real code (function + lifted statement)",
     "text": "Partial, unbounded proof of three of the listed rules only: (0) the `inherits` validation of "
@@ -171,7 +185,6 @@ NOT_APPLICABLE = {
     "C07": "Locale::merge = BTreeMap entry API with &mut returns + HashMap + RefCell<Vec<Warning>>: rejected by Verus, >400 s in Kani",
     "C10": "2-run / 3-format hyperproperty over serde front ends; single-call contracts cannot state it",
     "C13": "as_str/from_str/serde impls exist only as quote! output of create_locales_enum; verifying sample expansions would quantify over samples",
-    "C14": "&str prefix/trim/split code with labelled continue inside for + leptos_router types: rejected by Verus on three counts, strings out of reach in Kani; defect D6 recorded",
     "C16": "history property of leptos' reactive runtime; repo code is one-line delegation to RwSignal; a contract would restate leptos' semantics as an axiom",
     "C19": "toml/serde + filesystem; contain_duplicates uses get_or_insert_with on BTreeSet<&Key> (Verus rejects, Kani >400 s for 3 keys)",
     "C20": "continue inside for over impl Iterator from map closures (Verus rejects), BTreeMap + HashSet<Options> (Kani does not terminate); crate depends on icu_datagen",
